@@ -428,6 +428,7 @@ def rule_08_7(rep, fx):
     rule_08_8(rep, fx)
     rule_sort_before_limit(rep, fx, 'R08.9')
     rule_08_11(rep, fx)
+    rule_08_12(rep, fx)
 
 
 def rule_08_8(rep, fx):
@@ -641,3 +642,27 @@ def rule_08_11(rep, fx):
         rep.check(ok, 'R08.11', '%s::%s' % ('with_key' if wk else 'no_key', name), detail,
                   '%s reaches the sample cache through %s: a read that removes samples, a take that leaves them, or the wrong selection' % (b.key, sorted(set(acc_names)) or 'nothing'), b.where())
     rep.floor('R08.11', n, 12, 'read*/take* entry points of the with_key and no_key DataReader')
+
+
+def rule_08_12(rep, fx):
+    rep.rule('R08.12', 'next instance: DataSampleCache::next_key(key) is the first element of instance_map.range((Excluded(key), Unbounded)) - the smallest instance strictly greater '
+                       'than the key whether or not the key itself is an instance (no positional skipping)')
+    b = fx.find('dds::with_key::datasample_cache::DataSampleCache::next_key')
+    rep.analysed(b)
+    og = Origins(b)
+    t = og.of_local(0, b.return_blocks()[0], 'term')
+    rng = []
+    term_has(t, lambda x: x[0] == 'call' and x[1].endswith('BTreeMap::range') and rng.append(x))
+    ok = t[0] == 'call' and t[1].endswith('::next') and len(rng) == 1
+    why = term_str(t)[:100]
+    if ok:
+        r = rng[0]
+        bounds = r[2][1]
+        ok = has_field(r[2][0], 'instance_map') and bounds[0] == 'agg' and bounds[1] == 'tuple' and len(bounds[2]) == 2 and \
+            bounds[2][0][0] == 'agg' and str(bounds[2][0][1]).endswith('Bound::Excluded') and bounds[2][0][2][0] == ('param', 2) and \
+            bounds[2][1][0] == 'agg' and str(bounds[2][1][1]).endswith('Bound::Unbounded')
+        skips = []
+        term_has(t, lambda x: x[0] == 'call' and x[1].rsplit('::', 1)[-1] in ('nth', 'skip', 'last', 'next_back', 'rev', 'step_by', 'skip_while') and skips.append(x[1]))
+        ok = ok and not skips
+    rep.check(ok, 'R08.12', 'next_key/strictly-greater', 'range((Excluded(key), Unbounded)).next()',
+              'next_key does not return the smallest instance strictly greater than the given key (%s): a next-instance sweep skips an instance, or repeats one' % why, b.where())
